@@ -121,13 +121,15 @@ def port_trace(f, g, x0, maxcor, maxiter=12, hostile=False):
                 # rejected candidate: the newest stored point is still the old one
                 if len(X) == ev["len_before"] and X[-1] is ev["last_before"]:
                     # only a skip that the documented rule (s.y <= 2.2e-16 * y.y) prescribes counts as the known mechanism
-                    G = live.get("G")
+                    # judged with the harness's own gradient at the two points, not with what the package stored
                     try:
                         sv = np.asarray(live["xk"]) - X[-1]
-                        yv = np.asarray(live["gk"]) - G[-1]
+                        yv = g(np.array(live["xk"], copy=True)) - g(np.array(X[-1], copy=True))
                         legit = float(sv @ yv) <= 2.2e-16 * float(yv @ yv) * (1 + 1e-6)
                     except Exception:
                         legit = False
+                    if not legit:
+                        consts.setdefault("unjustified_skips_at_eval", []).append(len(pts))
                     if legit:
                         consts["skipped_updates_at_eval"].append(len(pts))
 
@@ -267,6 +269,10 @@ def run(spec):
         ncomp, multi, why = compare_traces(out, name, ppts, searches, spts, svals, tags, maxcor=spec["maxcor"],
                                            skipped_at=consts["skipped_updates_at_eval"])
         out.count("skipped_updates_seen", len(consts["skipped_updates_at_eval"]))
+        if consts.get("unjustified_skips_at_eval") and not out.violations:
+            out.violate("curvature_update_skipped_without_cause", f"{name}: a BFGS update was skipped at evaluation "
+                        f"#{consts['unjustified_skips_at_eval'][0]} although the pair formed with the true gradients has s.y > 2.2e-16*y.y "
+                        f"(Algorithm 778 stores it)", **tags)
         out.count("multi_trial_searches_compared", multi)
         out.nontrivial = ncomp >= 8 and multi >= 1
         out.key = f"traj/{P.spec['family']}/{P.n}/{P.spec['seed']}/{spec['maxcor']}"
